@@ -1357,6 +1357,9 @@ class sptensor:
         # rather than forming the Khatri-Rao product.
 
         U = get_mttkrp_factors(U, n, self.ndims)
+        for i in range(self.ndims):
+            if i != n and U[i].shape[0] != self.shape[i]:
+                assert False, f"Entry {i} of list of arrays is wrong size"
 
         if n == 0:
             R = U[1].shape[1]
